@@ -136,6 +136,27 @@ def _register():
 _register()
 
 
+def _register_unit():
+    """size-one configurations of a DIMENSION sort (a generic sort stands for sizes >= 2): scalar observation (Dy = 1), scalar
+    latent (Dx = 1) -- added after a seeded `if self.Dy == 1:` fast path was missed"""
+    for kind in ("full", "nn"):
+        cls = SP.COND_CLS[kind]
+        for (Rc, Rx) in (("Rc", 1), (1, "Rx"), (1, 1)):
+            if kind == "nn" and Rc != 1:
+                continue
+            for unit in ("Dy", "Dx"):
+                sorts = [s for s in (Rc, Rx) if s != 1] + ["Dy", "Ny", "Nx", "Dx"] + (["Du"] if kind == "nn" else [])
+                # Dy = 1: the Bayes identity needs 1/(s + m'Sx m) with an inner contraction, which the kernel does not complete;
+                # the posterior parameters, the class invariant and the frames are obligations, the identity is not
+                REG.ob(f"{cls}.affine_conditional_transformation/R=({Rc},{Rx})/{unit}=1", sorts=sorts, unit_sorts=[unit],
+                       order={("Dx", "Dy"): unit == "Dy"}, skip_clauses=(["hint/*", "bayes/*"] if unit == "Dy" else []),
+                       funcs=[f"conditional.{cls}.affine_conditional_transformation"], lemmas=["GtvLemmas.det_add_mul_mul_transpose"])(
+                    _mk(kind, Rc, Rx, False))
+
+
+_register_unit()
+
+
 def _mk_refusal(kind):
     def ob(w):
         Dx = "Dy" if kind.startswith("identity") else "Dx"
@@ -148,3 +169,7 @@ def _mk_refusal(kind):
 for _kind in ("full", "identity"):
     REG.ob(f"{SP.COND_CLS[_kind]}.affine_conditional_transformation/R=(Rc,Rx)/refusal", sorts=["Rc", "Rx", "Dy"] + ([] if _kind == "identity" else ["Dx"]),
            funcs=[f"conditional.{SP.COND_CLS[_kind]}.affine_conditional_transformation"])(_mk_refusal(_kind))
+
+
+from . import condctor as _cc  # noqa: E402
+REG.include(_cc.REG, prefix="ctor")
